@@ -49,6 +49,12 @@ CHECKS = {
  "C18": dict(cat="exploration", sec="4 C18", tech="request-path monitor against tlog.Tile.Path and proof monitor with three independent verifiers over all size pairs (runtime monitoring)",
    text="Paths: the exported SumDB client is called for levels 0-7, widths 1-256 and ~15k indices incl. every carry boundary of the x%03d encoding up to 10^9; the requested path must equal tlog.Tile.Path. Proofs: for every pair 1 <= from < to <= N (N=300 quick, 1200 thorough) plus sampled pairs up to 2^33 on region trees (full tiles at levels 1-3) the real sumdb.FeedLog runs against a stub SumDB serving exactly the size-`to` prefix (anything beyond is 404) and a recording witness; the proof passed to Update must be accepted by kit/reftree, tlog.CheckTree and a real Witness holding `from`.",
    note="Stub tiles come from x/mod tlog.ReadTileData over the harness tree."),
+ "C05": dict(cat="exploration", sec="4 C05", tech="controlled scheduler enumerating storage-operation interleavings of the real code + porcupine linearizability check per execution + race detector stress (runtime monitoring)",
+   text="The real Witness runs over a yielding persistence wrapper under a controlled scheduler: every storage operation and every request invocation is a yield point and a single scheduler goroutine releases one parked task at a time (enabledness on SQLite observed via db.Stats of the real single-connection pool). Every schedule of 18 scenarios (conflicting first use, forks from the same old size onto a fork consistent with the stored checkpoint, growth vs refresh, growth chain, stale/bad proof, different logs, a reader reading three times; 2-4 tasks) is executed - exhaustively for 2 tasks and 2 updaters + reader, preemption-bounded for 3 updaters/4 tasks in quick, exhaustive in thorough - and each history (logical clock = scheduler step, plus final reads) is checked with porcupine against kit/refwitness; storage errors are legal only for updates overlapping another update of the same log; reader sizes never decrease; a proven self-deadlock is a violation. Then randomised 8-64 goroutine stress runs under -race with the same oracle; any race report with a witness-module frame is a violation.",
+   note="Granularity = storage operations; finer interleavings only via the -race stress. The search is split over GOMAXPROCS=1 worker processes (hand-offs stay in user space). quick ~70 s."),
+ "C07": dict(cat="fault_enumeration", sec="4 C07", tech="fault injection at the persistence interface and at a wrapping database/sql driver, exhaustive single-fault positions + PRNG multi-fault histories, structural quiescence invariant (runtime monitoring)",
+   text="For six scenarios (first use, growth, refresh, refused-stale, refused-bad-proof, first-use-shaped fork on a populated log) every storage call position (learned from a fault-free dry run) x every fault kind is injected singly at the LogStatePersistence interface (over in-memory and SQLite) and at the SQL driver (begin/query/exec/commit/rollback, failed-before and reported-failed-after; :memory: and file), followed by PRNG multi-fault histories. After each faulted request: pool/handle quiescence (db.Stats().InUse==0, no open write handle), fault-free read-back, nil error => read returns exactly the returned bytes, refusable requests stay refused with the old checkpoint in place, then an honest next step from the committed state must be accepted; a call that never returns with the pool exhausted and nothing else running is a wedge.",
+   note="Faults stay inside the contract of the layer they impersonate (failed Commit really rolls back); ErrBadConn not injected; kernel-level ENOSPC/EIO not part of this tier."),
 }
 
 NOT_YET = "check not built yet in this session (planned, see DESIGN.md section 4)"
